@@ -226,7 +226,7 @@ theorem per_stream_exact_grpc (P : Params) (hP : P.GoodGrpc)
     (herr : ReaderDelivers P.chunk errWrites.flatten errReads)
     (hsel : GrpcSelect P outReads errReads sel) :
     grpcDeliver P sel = ⟨outWrites.flatten, errWrites.flatten⟩ := by
-  obtain ⟨_, hsend, hskip, hto, hte, _⟩ := hP
+  obtain ⟨_, hsend, hskip, hto, hte, _, _⟩ := hP
   have h := demux_merge P hskip hsel
     (fun m hm => by rw [recvFrom_chan _ _ m hm]; exact hto)
     (fun m hm => by rw [recvFrom_chan _ _ m hm]; exact hte)
@@ -247,7 +247,7 @@ theorem before_attach_retained_grpc (P : Params) (hP : P.GoodGrpc)
     let d := grpcDeliver P (sel.take k)
     d.out <+: preOut.flatten ++ postOut.flatten ∧ (d.out <+: preOut.flatten ∨ preOut.flatten <+: d.out) ∧
     d.err <+: preErr.flatten ++ postErr.flatten ∧ (d.err <+: preErr.flatten ∨ preErr.flatten <+: d.err) := by
-  obtain ⟨_, hsend, hskip, hto, hte, _⟩ := hP
+  obtain ⟨_, hsend, hskip, hto, hte, _, _⟩ := hP
   obtain ⟨a', b', ha, hb, hm⟩ := merge_take hsel k
   have hA : ∀ m ∈ a', sinkOf P m.chan = .out := fun m hm' => by
     rw [recvFrom_chan _ _ m (ha.subset hm')]; exact hto
@@ -269,8 +269,8 @@ theorem before_attach_retained_grpc (P : Params) (hP : P.GoodGrpc)
 context is the client's done-context, which carries no deadline. -/
 theorem stream_open_while_connected (P : Params) (hP : P.GoodGrpc) (connEnd t : Nat) (h : t < connEnd) :
     streamOpenAt P connEnd t = true := by
-  obtain ⟨_, _, _, _, _, hb⟩ := hP
-  simp [streamOpenAt, hb, h]
+  obtain ⟨_, _, _, _, _, hb, hk⟩ := hP
+  simp [streamOpenAt, hb, hk, h]
 
 private theorem takeWhile_all {α : Type} (p : α → Bool) (l : List α) (h : ∀ x ∈ l, p x = true) :
     l.takeWhile p = l := by
@@ -417,7 +417,7 @@ theorem rpcExec_exact (P : Params) (hP : P.GoodRpc) (outCuts errCuts : List Nat)
 /-! ### Witnesses: each fact is needed (the property fails when it is false) -/
 
 /-- the facts of the unchanged source -/
-def good : Params := ⟨1024, true, .stdout, .stderr, true, .out, .err, 0, 1, 0, 1, none⟩
+def good : Params := ⟨1024, true, .stdout, .stderr, true, .out, .err, 0, 1, 0, 1, none, none⟩
 
 /-- `copyChan` sending `data[:n-1]`: the byte written to stdout is lost. -/
 theorem send_slice_witness :
@@ -465,6 +465,12 @@ theorem stream_deadline_witness :
       = ⟨[1], [2]⟩ ∧
     grpcDeliverTimed { good with streamCtxBound := some 5000 } 60000
       [(10, ⟨.stdout, [1]⟩), (6500, ⟨.stdout, [3]⟩)] = ⟨[1], []⟩ := by decide
+
+/-- Client keep-alive pings every 10 s against a server with the default enforcement policy: after 40 s of quiet the
+transport has been recycled and what the plugin writes then is lost, although the connection lives on. -/
+theorem client_keepalive_witness :
+    ¬ ({ good with clientKeepalive := some 10000 } : Params).GoodGrpc ∧
+    grpcExecTimed { good with clientKeepalive := some 10000 } 600000 40000 [] [] [] [([1], [2]), ([3], [4])] = ⟨[1], [2]⟩ := by decide
 
 /-! ### Non-vacuity -/
 
